@@ -1120,5 +1120,340 @@ theorem plain_options_combined_main (o : Opts) (m : KMat) (ho : plainOpts o) (h 
     (convert o m).map core = (expected o m).map core := by
   rw [convert_plain o m ho, expected_plain o m ho, Option.map_some, Option.map_some, modelPipe_core o m h hr, specPipe_core]
 
+/-! ## renaming with the `*` forms -/
+
+/-- the hypothesis `plainPattern` of Props/C18.lean -/
+def plainPat (old : String) : Prop :=
+  let o := old.toList
+  o ≠ [] ∧ (∀ c ∈ o.dropLast.drop 1, c ≠ '*') ∧ ¬ (o.head? = some '*' ∧ o.getLast? = some '*' ∧ 2 ≤ o.length)
+
+theorem take_beq_eq_isPrefixOf (p n : List Char) : (n.take p.length == p) = p.isPrefixOf n := by
+  rw [Bool.eq_iff_iff, beq_iff_eq, List.isPrefixOf_iff_prefix, List.prefix_iff_eq_take]
+  exact eq_comm
+
+theorem drop_beq_eq_isSuffixOf (s n : List Char) : (n.drop (n.length - s.length) == s) = s.isSuffixOf n := by
+  rw [Bool.eq_iff_iff, beq_iff_eq, List.isSuffixOf_iff_suffix, List.suffix_iff_eq_drop]
+  exact eq_comm
+
+theorem ofList_beq (l : List Char) (s : String) : (String.ofList l == s) = (l == s.toList) := by
+  rw [Bool.eq_iff_iff, beq_iff_eq, beq_iff_eq, ← String.toList_inj, String.toList_ofList]
+
+theorem str_beq (a b : String) : (a == b) = (a.toList == b.toList) := by
+  rw [Bool.eq_iff_iff, beq_iff_eq, beq_iff_eq, String.toList_inj]
+
+/-- the three shapes of a plain pattern -/
+theorem plainPat_cases (old : String) (hp : plainPat old) :
+    (old.toList.getLast? ≠ some '*' ∧ old.toList.head? ≠ some '*') ∨
+    (old.toList.getLast? ≠ some '*' ∧ old.toList.head? = some '*' ∧ 2 ≤ old.toList.length) ∨
+    (old.toList = ['*']) ∨
+    (old.toList.getLast? = some '*' ∧ old.toList.head? ≠ some '*' ∧ 2 ≤ old.toList.length) := by
+  obtain ⟨h0, _, h3⟩ := hp
+  generalize old.toList = o at *
+  by_cases hl : o.getLast? = some '*'
+  · right; right
+    by_cases hlen : 2 ≤ o.length
+    · right
+      exact ⟨hl, fun hh => h3 ⟨hh, hl, hlen⟩, hlen⟩
+    · left
+      match o, h0, hl, hlen with
+      | [c], _, hl, _ =>
+        simp only [List.getLast?_singleton, Option.some.injEq] at hl
+        rw [hl]
+      | _ :: _ :: _, _, _, hlen => exact absurd (by simp) hlen
+  · by_cases hh : o.head? = some '*'
+    · right; left
+      refine ⟨hl, hh, ?_⟩
+      match o, h0, hl, hh with
+      | [c], _, hl, hh =>
+        exfalso; apply hl
+        simpa using hh
+      | _ :: _ :: _, _, _, _ => simp
+    · left; exact ⟨hl, hh⟩
+
+
+/-- exact form -/
+theorem renameFrameName_exact (old new name : String)
+    (ho : old.toList.getLast? ≠ some '*' ∧ old.toList.head? ≠ some '*') :
+    renameFrameName old new name = if name == old then new else name := by
+  unfold renameFrameName
+  have h1 : (old.toList.getLast? == some '*') = false := by
+    rw [beq_eq_false_iff_ne]; exact ho.1
+  have h2 : (old.toList.head? == some '*') = false := by
+    rw [beq_eq_false_iff_ne]; exact ho.2
+  simp only [h1, h2, Bool.false_eq_true, if_false, String.ofList_toList]
+
+/-- suffix form -/
+theorem renameFrameName_suffix (old new name : String)
+    (ho : old.toList.getLast? ≠ some '*' ∧ old.toList.head? = some '*' ∧ 2 ≤ old.toList.length) :
+    renameFrameName old new name =
+      if (old.toList.drop 1).isSuffixOf name.toList
+      then String.ofList (name.toList.take (name.toList.length - (old.toList.length - 1)) ++ new.toList) else name := by
+  unfold renameFrameName
+  have h1 : (old.toList.getLast? == some '*') = false := by
+    rw [beq_eq_false_iff_ne]; exact ho.1
+  have h2 : (old.toList.head? == some '*') = true := by
+    rw [beq_iff_eq]; exact ho.2.1
+  have h3 : (old.toList.length - 1 == 0) = false := by
+    rw [beq_eq_false_iff_ne]; have := ho.2.2; omega
+  have h4 : old.toList.length - 1 = (old.toList.drop 1).length := by rw [List.length_drop]
+  simp only [h1, h2, h3, Bool.false_eq_true, if_false, if_true, String.ofList_toList]
+  rw [h4, drop_beq_eq_isSuffixOf]
+
+theorem sRenameName_suffix (old new name : String)
+    (ho : old.toList.getLast? ≠ some '*' ∧ old.toList.head? = some '*' ∧ 2 ≤ old.toList.length) :
+    sRenameName old new name =
+      if (old.toList.drop 1).isSuffixOf name.toList
+      then String.ofList (name.toList.take (name.toList.length - (old.toList.length - 1)) ++ new.toList) else name := by
+  unfold sRenameName
+  have h1 : (old.toList.getLast? == some '*') = false := by
+    rw [beq_eq_false_iff_ne]; exact ho.1
+  have h2 : (old.toList.head? == some '*') = true := by
+    rw [beq_iff_eq]; exact ho.2.1
+  have h3 : decide (old.toList.length ≥ 2) = true := decide_eq_true ho.2.2
+  simp only [h1, h2, h3, Bool.false_and, Bool.true_and, Bool.false_eq_true, if_false]
+  by_cases hs : (old.toList.drop 1).isSuffixOf name.toList = true
+  · rw [if_pos hs, if_pos hs]
+  · rw [if_neg hs, if_neg hs]
+    have : ¬ (name == old) = true := by
+      intro he
+      rw [beq_iff_eq] at he
+      apply hs
+      rw [he, List.isSuffixOf_iff_suffix]
+      exact List.drop_suffix 1 _
+    rw [if_neg this]
+
+/-- the lone `*`: the new name is put in front -/
+theorem renameFrameName_star (old new name : String) (ho : old.toList = ['*']) :
+    renameFrameName old new name = String.ofList (new.toList ++ name.toList) := by
+  unfold renameFrameName
+  rw [ho]
+  simp only [List.getLast?_singleton, List.head?_cons, List.length_singleton, Nat.sub_self, List.take_zero, List.drop_zero,
+    List.dropLast_singleton, BEq.rfl, if_true, List.drop_succ_cons, List.nil_append]
+  by_cases h : (new.toList ++ name.toList == []) = true
+  · rw [if_pos h]
+    rw [beq_iff_eq, List.append_eq_nil_iff] at h
+    rw [h.2, List.append_nil]
+  · rw [if_neg h]
+
+theorem sRenameName_star (old new name : String) (ho : old.toList = ['*']) :
+    sRenameName old new name = String.ofList (new.toList ++ name.toList) := by
+  unfold sRenameName
+  rw [ho]
+  simp only [List.getLast?_singleton, List.length_singleton, Nat.sub_self, List.drop_zero,
+    List.dropLast_singleton, BEq.rfl, List.isPrefixOf_nil_left, Bool.true_and, ge_iff_le, Nat.le_refl, decide_true, if_true]
+
+/-- prefix form -/
+theorem sRenameName_prefix (old new name : String)
+    (ho : old.toList.getLast? = some '*' ∧ old.toList.head? ≠ some '*' ∧ 2 ≤ old.toList.length) :
+    sRenameName old new name =
+      if old.toList.dropLast.isPrefixOf name.toList
+      then String.ofList (new.toList ++ name.toList.drop (old.toList.length - 1)) else if name == old then new else name := by
+  unfold sRenameName
+  have h1 : (old.toList.getLast? == some '*') = true := by
+    rw [beq_iff_eq]; exact ho.1
+  have h2 : (old.toList.head? == some '*') = false := by
+    rw [beq_eq_false_iff_ne]; exact ho.2.1
+  have h3 : decide (old.toList.length ≥ 1) = true := decide_eq_true (by have := ho.2.2; omega)
+  simp only [h1, h2, h3, Bool.false_and, Bool.true_and, Bool.false_eq_true, if_false]
+
+/-- `rename_frame` with a prefix pattern, as the source has it: when the renamed name equals the pattern itself,
+the following `elif` renames it once more -/
+theorem renameFrameName_prefix (old new name : String)
+    (ho : old.toList.getLast? = some '*' ∧ old.toList.head? ≠ some '*' ∧ 2 ≤ old.toList.length) :
+    renameFrameName old new name =
+      if old.toList.dropLast.isPrefixOf name.toList
+      then (if new.toList ++ name.toList.drop (old.toList.length - 1) == old.toList then new
+            else String.ofList (new.toList ++ name.toList.drop (old.toList.length - 1)))
+      else if name == old then new else name := by
+  unfold renameFrameName
+  have h1 : (old.toList.getLast? == some '*') = true := by
+    rw [beq_iff_eq]; exact ho.1
+  have h2 : (old.toList.head? == some '*') = false := by
+    rw [beq_eq_false_iff_ne]; exact ho.2.1
+  have h4 : old.toList.length - 1 = old.toList.dropLast.length := by rw [List.length_dropLast]
+  simp only [h1, h2, Bool.false_eq_true, if_false, if_true]
+  rw [ofList_beq]
+  rw [h4, take_beq_eq_isPrefixOf]
+  by_cases hs : old.toList.dropLast.isPrefixOf name.toList = true
+  · simp only [hs, if_true]
+  · simp only [hs, Bool.false_eq_true, if_false, String.ofList_toList]
+    rw [str_beq]
+
+/-- `rename_frame` does what the documentation says for plain patterns, provided that - for a prefix pattern -
+the name to be renamed does not itself end in `*` -/
+theorem renameFrameName_documented_of_last (old new name : String) (hp : plainPat old)
+    (hn : old.toList.getLast? = some '*' → name.toList.getLast? ≠ some '*') :
+    renameFrameName old new name = sRenameName old new name := by
+  rcases plainPat_cases old hp with h | h | h | h
+  · rw [renameFrameName_exact old new name h, sRenameName_exact old new name h]
+  · rw [renameFrameName_suffix old new name h, sRenameName_suffix old new name h]
+  · rw [renameFrameName_star old new name h, sRenameName_star old new name h]
+  · rw [renameFrameName_prefix old new name h, sRenameName_prefix old new name h]
+    by_cases hs : old.toList.dropLast.isPrefixOf name.toList = true
+    · rw [if_pos hs, if_pos hs]
+      by_cases he : (new.toList ++ name.toList.drop (old.toList.length - 1) == old.toList) = true
+      · rw [if_pos he]
+        rw [beq_iff_eq] at he
+        have hr : name.toList.drop (old.toList.length - 1) = [] := by
+          apply Classical.byContradiction
+          intro hne
+          have hl : (new.toList ++ name.toList.drop (old.toList.length - 1)).getLast? = some '*' := by rw [he]; exact h.1
+          rw [List.getLast?_append] at hl
+          have hd : (name.toList.drop (old.toList.length - 1)).getLast? = name.toList.getLast? := by
+            rw [List.getLast?_drop]
+            split
+            · rename_i hle
+              exact absurd (List.drop_eq_nil_iff.2 hle) hne
+            · rfl
+          rw [hd] at hl
+          cases hx : name.toList.getLast? with
+          | none =>
+            rw [← hd, List.getLast?_eq_none_iff] at hx
+            exact hne hx
+          | some c =>
+            rw [hx, Option.some_or] at hl
+            rw [hl] at hx
+            exact hn h.1 hx
+        rw [hr, List.append_nil, String.ofList_toList]
+      · rw [if_neg he]
+    · rw [if_neg hs, if_neg hs]
+
+theorem renameFrameName_documented_of_noStar (old new name : String) (hp : plainPat old) (hn : '*' ∉ name.toList) :
+    renameFrameName old new name = sRenameName old new name :=
+  renameFrameName_documented_of_last old new name hp (fun _ hl => hn (List.mem_of_getLast? hl))
+
+/-- `rename_signal` (an `if` / `elif` chain) with a `*` form -/
+theorem renameSigPattern_documented (old new name : String) (hp : plainPat old)
+    (hs : old.toList.getLast? = some '*' ∨ old.toList.head? = some '*') :
+    renameSigPattern old new name = sRenameName old new name := by
+  rcases plainPat_cases old hp with h | h | h | h
+  · exact absurd hs (by intro hs; rcases hs with hs | hs; exact h.1 hs; exact h.2 hs)
+  · rw [sRenameName_suffix old new name h]
+    unfold renameSigPattern
+    have h1 : (old.toList.getLast? == some '*') = false := by
+      rw [beq_eq_false_iff_ne]; exact h.1
+    have h2 : (old.toList.head? == some '*') = true := by
+      rw [beq_iff_eq]; exact h.2.1
+    have h3 : (old.toList.length - 1 == 0) = false := by
+      rw [beq_eq_false_iff_ne]; have := h.2.2; omega
+    have h4 : old.toList.length - 1 = (old.toList.drop 1).length := by rw [List.length_drop]
+    simp only [h1, h2, h3, Bool.false_eq_true, if_false, if_true]
+    rw [h4, drop_beq_eq_isSuffixOf]
+  · rw [sRenameName_star old new name h]
+    unfold renameSigPattern
+    rw [h]
+    simp only [List.getLast?_singleton, List.length_singleton, Nat.sub_self, List.take_zero, List.drop_zero,
+      List.dropLast_singleton, BEq.rfl, if_true]
+  · rw [sRenameName_prefix old new name h]
+    unfold renameSigPattern
+    have h1 : (old.toList.getLast? == some '*') = true := by
+      rw [beq_iff_eq]; exact h.1
+    have h4 : old.toList.length - 1 = old.toList.dropLast.length := by rw [List.length_dropLast]
+    simp only [h1, if_true]
+    rw [h4, take_beq_eq_isPrefixOf]
+    by_cases hpre : old.toList.dropLast.isPrefixOf name.toList = true
+    · rw [if_pos hpre, if_pos hpre]
+    · rw [if_neg hpre, if_neg hpre]
+      have : ¬ (name == old) = true := by
+        intro he
+        rw [beq_iff_eq] at he
+        apply hpre
+        rw [he, List.isPrefixOf_iff_prefix]
+        exact List.dropLast_prefix _
+      rw [if_neg this]
+
+/-! ### `--renameSignal` with a `*` form alone -/
+
+theorem renameSignalIn_pattern (old new : String) (f : KFrame)
+    (hs : old.toList.getLast? = some '*' ∨ old.toList.head? = some '*') :
+    renameSignalIn old new f = { f with sigs := f.sigs.map fun s => { s with name := renameSigPattern old new s.name } } := by
+  unfold renameSignalIn
+  have h : (old.toList.getLast? == some '*' || old.toList.head? == some '*') = true := by
+    rw [Bool.or_eq_true, beq_iff_eq, beq_iff_eq]; exact hs
+  simp only [h, if_true]
+
+theorem renameSignal_pattern_A (old new : String) (hp : plainPat old)
+    (hs : old.toList.getLast? = some '*' ∨ old.toList.head? = some '*') (m : KMat) :
+    core (stepRenameSignal m (old, new)) = sRenameSignal (core m) (old, new) := by
+  apply core_mapFrames m _ _
+  intro f _
+  show coreF (renameSignalIn old new f) = _
+  rw [renameSignalIn_pattern old new f hs]
+  have : (fun s : KSig => { s with name := renameSigPattern old new s.name }) = fun s => { s with name := sRenameName old new s.name } := by
+    funext s
+    rw [renameSigPattern_documented old new s.name hp hs]
+  rw [this]
+  rfl
+
+theorem renameSignal_pattern_main (m : KMat) (old new : String) (hp : plainPat old)
+    (hs : old.toList.getLast? = some '*' ∨ old.toList.head? = some '*') :
+    (convert { renameSignal := some [(old, new)] } m).map core = (expected { renameSignal := some [(old, new)] } m).map core :=
+  alone_one (fun m => stepRenameSignal m (old, new)) (fun m => sRenameSignal m (old, new)) m
+    (renameSignal_pattern_A old new hp hs _ |>.trans (by rw [core_init])) (sRenameSignal_B m _)
+
+/-! ### `--renameFrame` alone -/
+
+def stepRenameFrame (m : KMat) (p : String × String) : KMat :=
+  { m with frames := m.frames.map fun f => { f with name := renameFrameName p.1 p.2 f.name } }
+
+theorem renameFrame_A (old new : String) (hp : plainPat old) (m : KMat)
+    (hn : old.toList.getLast? = some '*' → ∀ f ∈ m.frames, f.name.toList.getLast? ≠ some '*') :
+    core (stepRenameFrame m (old, new)) = sRenameFrame (core m) (old, new) := by
+  apply core_mapFrames m _ _
+  intro f hf
+  show coreF { f with name := renameFrameName old new f.name } = _
+  rw [renameFrameName_documented_of_last old new f.name hp (fun hl => hn hl f hf)]
+  rfl
+
+theorem sRenameFrame_B (m : KMat) (p : String × String) : core (sRenameFrame m p) = sRenameFrame (core m) p :=
+  core_mapFrames m _ _ (fun _ _ => rfl)
+
+theorem init_frame_names (m : KMat) : ∀ g ∈ (init m).frames, ∃ f ∈ m.frames, g.name = f.name := by
+  intro g hg
+  obtain ⟨f, hf, rfl⟩ := List.mem_map.1 hg
+  refine ⟨f, hf, ?_⟩
+  split <;> rfl
+
+/-- `--renameFrame` alone, for a plain pattern; with a prefix pattern no frame name may itself end in `*` -/
+theorem renameFrame_alone_of_last (m : KMat) (old new : String) (hp : plainPat old)
+    (hn : old.toList.getLast? = some '*' → ∀ f ∈ m.frames, f.name.toList.getLast? ≠ some '*') :
+    (convert { renameFrame := some [(old, new)] } m).map core = (expected { renameFrame := some [(old, new)] } m).map core :=
+  alone_one (fun m => stepRenameFrame m (old, new)) (fun m => sRenameFrame m (old, new)) m
+    (renameFrame_A old new hp _ (fun hl g hg => by
+        obtain ⟨f, hf, hgf⟩ := init_frame_names m g hg
+        rw [hgf]; exact hn hl f hf) |>.trans (by rw [core_init])) (sRenameFrame_B m _)
+
+/-- the same with the plainer hypothesis: no frame name contains a `*` -/
+theorem renameFrame_alone_of_noStar (m : KMat) (old new : String) (hp : plainPat old)
+    (hn : ∀ f ∈ m.frames, '*' ∉ f.name.toList) :
+    (convert { renameFrame := some [(old, new)] } m).map core = (expected { renameFrame := some [(old, new)] } m).map core :=
+  renameFrame_alone_of_last m old new hp (fun _ f hf hl => hn f hf (List.mem_of_getLast? hl))
+
+/-! ### the two statements of Props/C18.lean on `rename_frame` that are false as written -/
+
+theorem starPat_plain : plainPat "A*" := by
+  unfold plainPat
+  decide
+
+/-- the prefix pattern `A*` (a plain pattern), new name `A`, a frame that is itself called `A*`: the first `if` of
+`rename_frame` renames it to `A` + `*` = `A*`, which the exact comparison after the second `if` then takes for the
+pattern and renames to `A`; the documented effect is the prefix replacement only -/
+theorem renameFrameName_documented_false : renameFrameName "A*" "A" "A*" ≠ sRenameName "A*" "A" "A*" := by
+  decide
+
+theorem renameFrameName_documented_false_values :
+    renameFrameName "A*" "A" "A*" = "A" ∧ sRenameName "A*" "A" "A*" = "A*" := by
+  decide
+
+def starNameEx : KMat := { frames := [{ name := "A*", id := 1, ext := false, size := 1 }] }
+
+theorem renameFrame_alone_false :
+    (convert { renameFrame := some [("A*", "A")] } starNameEx).map core ≠ (expected { renameFrame := some [("A*", "A")] } starNameEx).map core := by
+  decide
+
+theorem renameFrame_alone_false_names :
+    (convert { renameFrame := some [("A*", "A")] } starNameEx).map (·.frames.map (·.name)) = some ["A"] ∧
+    (expected { renameFrame := some [("A*", "A")] } starNameEx).map (·.frames.map (·.name)) = some ["A*"] := by
+  decide
 
 end CanVerif.Conv
